@@ -1,4 +1,5 @@
 import OhkamiModel.M.SessionProofs
+import OhkamiModel.M.SessionSeg
 /-! # C06 — property theorems about reads and segmentation in the session-loop model -/
 namespace C06
 open Ohkami Ohkami.Session
@@ -45,5 +46,29 @@ theorem readExact_flatten : ∀ (cs : List Bytes) (n : Nat) (b : Bytes) (r : Lis
 theorem no_residue (app : App) (fuel : Nat) (conn : Conn) :
     run app fuel ⟨none, 0⟩ conn = run (forget app) fuel ⟨none, 0⟩ conn :=
   residue_irrelevant app fuel ⟨none, 0⟩ conn (Or.inl rfl)
+
+/-- **The parsed request does not depend on where the first read ends**, as long as the head is complete in it: whatever part of the body
+arrives with the head (`x`) and whatever arrives later (`y`), the request object is the same. -/
+theorem parse_split (f x y : Bytes) (p : Http.Parsed) (h : Http.parse f (x ++ y) = .ok p) : Http.parse (f ++ x) y = .ok p :=
+  Http.parse_split f x y p h
+
+/-- **Responses are a function of the byte stream** on the class of segmentations the code supports: every request starts a read, its head
+lies within that read (at most the buffer), and its body is cut into reads in any way — any amount of it arriving with the head, the rest in
+any non-empty pieces (`SegExact`).  The responses written are then `expected` of the requests' bytes alone (`Seg.bytes`): request by request
+what the same bytes get as a single read on a fresh connection (C05.one_per_chunk / fresh_connection).  No segmentation appears on the
+right-hand side; for every application, any number of requests, any bytes. -/
+theorem segmentation_independent (app : App) (segs : List Seg) (hex : ∀ s ∈ segs, SegExact s) (fuel : Nat) (hf : segs.length < fuel) (eof : Bool) :
+    (run app fuel ⟨none, 0⟩ ⟨chunksOf segs, eof⟩).1 = expected app (segs.map Seg.bytes) :=
+  segmentation_independent' app segs hex fuel hf eof
+
+/-! non-vacuity: a request whose body arrives partly with the head and then in two pieces meets `SegExact` -/
+private def postHead : Bytes := [80,79,83,84,32,47,97,32,72,84,84,80,47,49,46,49,13,10,67,111,110,116,101,110,116,45,76,101,110,103,116,104,58,32,51,13,10,13,10]
+
+private theorem post_parse : Http.parse (postHead ++ [97]) [98, 99] = Http.Outcome.ok (⟨"POST", [47, 97], none, [(Gen.contentLengthIndex, [51])], [], some [97, 98, 99]⟩ : Http.Parsed) := by rfl
+example : SegExact (postHead ++ [97], [[98], [99]]) := by
+  unfold SegExact
+  refine ⟨by decide, by decide, by decide, ?_⟩
+  have : ([[98], [99]] : List Bytes).flatten = [98, 99] := by decide
+  simp only [this, post_parse]; decide
 
 end C06
